@@ -130,6 +130,26 @@ Outcome(regs, s) ==
          IF s.bits = 1 THEN UnaryCopyOut(d, a)
          ELSE LET t == AddOut(d, a, b) IN
               IF s.bits = 2 \/ t.status # "ok" THEN t ELSE AddAssignOut(t.reg, regs[s.c])
+    [] s.op = "dot_ct" ->        \* <a, c> . <b, rot-register>: pairs (a, b) and (c, regs[s.bits]); two paths as in the library
+         LET a2 == regs[s.c]
+             b2 == regs[s.bits]
+         IN IF a.ld = a2.ld /\ b.ld = b2.ld
+            THEN \* uniform precisions: operands brought to their smallest budget, one accumulated tensor product, one relinearisation
+                 MulOut(d, [a EXCEPT !.lb = Min2(a.lb, a2.lb), !.mag = Max2(a.mag, a2.mag), !.el = Max2(a.el, a2.el) + 1],
+                           [b EXCEPT !.lb = Min2(b.lb, b2.lb), !.mag = Max2(b.mag, b2.mag) + 1, !.el = Max2(b.el, b2.el) + 1])
+            ELSE \* mixed precisions: product of the first pair into dst, then products into a temporary added in place
+                 LET t0 == MulOut(d, a, b) IN
+                 IF t0.status # "ok" THEN t0 ELSE Fused(t0.reg, MulOut(TmpLike(d), a2, b2), FALSE)
+    [] s.op = "mul_many" ->      \* a * (b * c): equal precisions required; the right pair goes through a temporary sized from its operands
+         LET c3 == regs[s.c] IN
+         IF ~(a.ld = b.ld /\ b.ld = c3.ld) THEN Err("err:other", d)
+         ELSE LET kl == DivCeil2(Ek(a), B) * B
+                  kr == DivCeil2(Max2(0, Min2(Ek(b), Ek(c3)) - a.ld), B) * B
+                  tl == UnaryCopyOut([None EXCEPT !.st = "empty", !.maxk = kl], a)
+                  tr == MulOut([None EXCEPT !.st = "empty", !.maxk = kr], b, c3)
+              IN IF tl.status # "ok" THEN Err(tl.status, d)
+                 ELSE IF tr.status # "ok" THEN Err(tr.status, d)
+                 ELSE MulOut(d, tl.reg, tr.reg)
     [] s.op = "compact" -> Ok([d EXCEPT !.maxk = DivCeil2(Ek(d), B) * B])
     [] OTHER -> \* realloc to s.bits limbs
          IF s.bits < DivCeil2(Ek(d), B) THEN Err(ErrLimb, d) ELSE Ok([d EXCEPT !.maxk = s.bits * B])
